@@ -106,6 +106,7 @@ def run(check, prog):
     r5_scale(check, prog, canon)
     r6_arithmetic(check, prog, canon)
     r7_constructors(check, prog, canon)
+    r8_uniform_guess(check, prog, canon)
 
 
 # ----------------------------------------------------------------------
@@ -584,6 +585,20 @@ def r6_arithmetic(check, prog, canon):
             'TypeError' in show(outs[0].value)
         check.require(ok, 'R6-identities', 'Prior.%s(foreign type)' % name,
                       'unsupported operand types raise TypeError', prog.loc(owner, fd))
+    # arrays: the operator is applied element by element
+    for name, op in (('__add__', '+'), ('__mul__', '*')):
+        it, res, owner, fd = method(prog, cq, name, decide=scenario('array'), depth=0)
+        r = res.ret
+        ok = r[0] == 'call' and r[1] == 'numpy.array' and len(r[2]) == 1
+        if ok:
+            c = r[2][0]
+            if c[0] == 'call' and c[1] == 'list' and len(c[2]) == 1:
+                c = c[2][0]
+            ok = c[0] == 'comp' and len(c[3]) == 1 and c[3][0][1] == v and \
+                c[2] in (('bin', op, s, c[3][0][0]), ('bin', op, c[3][0][0], s))
+        check.require(ok, 'R6-operator-denotation', 'Prior.%s(array)' % name,
+                      'prior %s array = array of (prior %s element)' % (op, op),
+                      prog.loc(owner, fd), fail_detail='returns %s' % show(r)[:120])
     # __array_ufunc__
     it, res, owner, fd = method(prog, cq, '__array_ufunc__', depth=1)
     normal = res.returns
@@ -641,6 +656,61 @@ def r6_arithmetic(check, prog, canon):
 
 
 # ----------------------------------------------------------------------
+def r8_uniform_guess(check, prog, canon):
+    """Uniform: the guess is the caller's when given (and inside the bounds),
+    otherwise a point of the support; the scale factor is positive."""
+    import itertools
+    from hpstatic.logic import select
+    fs = final_self(prog, P + 'Uniform')
+    it, fr, selft, res = fs
+    owner, fd = init_of(prog, P + 'Uniform')
+    loc = prog.loc(owner, fd)
+    l, u, g = sym('lower_bound'), sym('upper_bound'), sym('guess')
+    gt = it.getattr_term(selft, 'guess', fr, ())
+    GN = intern(('cmp', 'is', g, NONE))
+    FL = intern(('call', 'numpy.isfinite', (l,), ()))
+    FU = intern(('call', 'numpy.isfinite', (u,), ()))
+    ok = True
+    detail = ''
+    n = 0
+    for gn, fl, fu in itertools.product((True, False), repeat=3):
+        asg = {GN: gn, FL: fl, FU: fu}
+        leaf = select(gt, lambda t: asg.get(t))
+        n += 1
+        if not gn:
+            good = leaf == g
+            want = 'the given guess'
+        elif fl and fu:
+            good = leaf is not None and canon.equal(leaf, intern(
+                ('bin', '/', ('bin', '+', l, u), num(2))))
+            want = 'the midpoint'
+        elif fl:
+            good, want = leaf == l, 'the lower bound'
+        elif fu:
+            good, want = leaf == u, 'the upper bound'
+        else:
+            good, want = leaf == num(0), '0'
+        if not good:
+            ok = False
+            detail = 'guess given=%s, finite lower=%s, finite upper=%s: expected %s, ' \
+                'found %s' % (not gn, fl, fu, want, show(leaf)[:60] if leaf else None)
+    check.require(ok, 'R8-uniform-guess', 'Uniform.__init__ guess',
+                  'a given guess is kept; the default is the midpoint / the finite bound '
+                  '/ 0 -- always a point of the support (%d rows)' % n, loc,
+                  fail_detail=detail)
+    rs = [o for o in res.outcomes if o.kind == 'raise']
+    outside = [o for o in rs if any(t == GN and not p for t, p in norm_cond(o.cond))]
+    ok = len(outside) == 1
+    if ok:
+        cs = [(t, p) for t, p in norm_cond(outside[0].cond) if t != GN]
+        ok = len(cs) == 1 and cs[0][1] is True and cs[0][0][0] == 'bool' and \
+            cs[0][0][1] == 'or' and {lt_form(x) for x in cs[0][0][2]} == {
+                ('<', g, l), ('<', u, g)}
+    check.require(ok, 'R8-uniform-guess', 'Uniform.__init__ guess outside',
+                  'a guess below the lower or above the upper bound is rejected (and '
+                  'only such a guess)', loc)
+
+
 def r7_constructors(check, prog, canon):
     def raising_conds(cname):
         it = Interp(prog, max_depth=1)
